@@ -32,7 +32,11 @@
 (define-fun-rec fieldErrCount ((e Any) (K Int) (N Time) (c Slice_Any) (i Int)) Int
   (ite (<= i 0) 0 (+ (fieldErrCount e K N c (- i 1)) (ite (= (selErr e K N (select (arr_Any c) (- i 1))) 0) 0 1))))
 ; exclude(d): keep the items of c equal to no item of d
-(define-fun keepE ((d Slice_Any) (x Any)) Bool (not (containsS d x)))
+; keepE is declared and axiomatised rather than defined: exclLen is recursive, and a quantifier
+; (the exists of containsS) inside the body of a recursive definition made z3 5.1.0 answer
+; `unsat` on a satisfiable query (found by the seeded change exclude-dedups-result; DESIGN 13.3)
+(declare-fun keepE (Slice_Any Any) Bool)
+(assert (forall ((d Slice_Any) (x Any)) (! (= (keepE d x) (not (containsS d x))) :pattern ((keepE d x)))))
 (define-fun-rec exclLen ((d Slice_Any) (c Slice_Any) (i Int)) Int
   (ite (<= i 0) 0 (+ (exclLen d c (- i 1)) (ite (keepE d (select (arr_Any c) (- i 1))) 1 0))))
 ; a path is the left fold of its steps (ExpressionSequence): result after the first i steps
